@@ -44,6 +44,9 @@ type c20Fixture struct {
 	now            int64
 	a, b           robust.Id
 	link           robust.Id // an authenticated services link with the pseudo-client ChanServ
+	pending        robust.Id // a session that has sent PASS services=... but not SERVER yet
+	pendingAuth    string
+	pendingCmid    uint64
 	batchA, batchB uint64 // ids of inputs that produced an output batch (JOIN of a, JOIN of b)
 	spare          *ircserver.IRCServer
 }
@@ -117,12 +120,18 @@ func c20NewFixture(t *testing.T, dir string) *c20Fixture {
 	for _, l := range []string{"PASS :services=svcpw", "SERVER services.robustirc.net 1 :Services", "NICK ChanServ 1 1422134861 services robustirc.net services.robustirc.net 0 :Channel Services"} {
 		apply(ircserver.VEntry{Type: robust.IRCFromClient, Session: f.link, Data: l, ClientMessageId: f.next + 100, RemoteAddr: "10.0.0.3"})
 	}
+	apply(ircserver.VEntry{Type: robust.CreateSession, Data: "auth-p-0123456789"})
+	f.pending, f.pendingAuth = robust.Id{Id: f.next}, "auth-p-0123456789"
+	apply(ircserver.VEntry{Type: robust.IRCFromClient, Session: f.pending, Data: "PASS :services=svcpw", ClientMessageId: f.next + 100, RemoteAddr: "10.0.0.4"})
+	f.pendingCmid = f.next + 99 // the client message id of that PASS line
 	if _, ok := f.o.Get(robust.Id{Id: f.batchA}); !ok {
 		t.Fatal("HARNESS: fixture batch missing")
 	}
 	// a second stream object over the same data would share the cache; instead make sure the cache is cold
 	// for the operations under test: Get above warmed batchA only
-	f.h = api.NewHTTP(f.srv, nil, f.st, f.o, nil, vNetName, vNetPassword, dir, vPeerAddr, true, 3)
+	// (a zero raft.Raft: State() is Follower and Leader() is empty, which is all a handler that finds no
+	// duplicate needs to answer "no leader known" instead of dereferencing nil)
+	f.h = api.NewHTTP(f.srv, &raft.Raft{}, f.st, f.o, nil, vNetName, vNetPassword, dir, vPeerAddr, true, 3)
 	return f
 }
 
@@ -151,6 +160,12 @@ func c20Ops() []c20Op {
 		{"Apply(services KILL)", "fsm", line(L, ":ChanServ KILL b :bye")},
 		{"Apply(services NICK new pseudo-client)", "fsm", line(L, "NICK NickServ 1 1422134861 services robustirc.net services.robustirc.net 0 :Nick Services")},
 		{"Apply(services QUIT)", "fsm", line(L, "QUIT :link closing")},
+		// (same client message id as the session's previous line: the POST handler below then answers from the
+		// duplicate detection whichever of the two runs first; the fixture has no raft node to hand a message to)
+		{"Apply(SERVER: a session becomes a services link)", "fsm", func(f *c20Fixture) {
+			e := ircserver.VEntry{Type: robust.IRCFromClient, Id: f.next + 1, Session: f.pending, Data: "SERVER services2.robustirc.net 1 :second link", UnixNano: f.now + 1e9, ClientMessageId: f.pendingCmid, RemoteAddr: "10.0.0.4"}
+			f.fsm.applyRobustMessage(e.Msg(), f.srv, f.o)
+		}},
 		{"Apply(PRIVMSG)", "fsm", line(A, "PRIVMSG #c :hi")},
 		{"Apply(NICK)", "fsm", line(B, "NICK bb")},
 		{"Apply(JOIN new channel)", "fsm", line(B, "JOIN #d")},
@@ -225,6 +240,20 @@ func c20Ops() []c20Op {
 			f.st.GetUint64([]byte("CurrentTerm"))
 			f.st.Set([]byte("LastVoteCand"), []byte("x"))
 			f.st.Get([]byte("LastVoteCand"))
+		}},
+		// the real POST handler; the request repeats the session's last client message id, so it is answered by
+		// the duplicate detection without going to raft (there is none in this fixture)
+		{"POST message (duplicate) via the real handler", "http", func(f *c20Fixture) {
+			for _, x := range []struct {
+				id   robust.Id
+				auth string
+				cmid uint64
+			}{{f.pending, f.pendingAuth, f.pendingCmid}} {
+				body := fmt.Sprintf(`{"Data":"PASS :services=svcpw","ClientMessageId":%d}`, x.cmid)
+				req := httptest.NewRequest("POST", fmt.Sprintf("https://x/robustirc/v1/0x%x/message", x.id.Id), strings.NewReader(body))
+				req.Header.Set("X-Session-Auth", x.auth)
+				f.h.VerifHandlePostMessage(httptest.NewRecorder(), req, x.id)
+			}
 		}},
 		{"GET /status/sessions via api accessors", "http", func(f *c20Fixture) {
 			f.h.DispatchPrivateWithoutAuth(httptest.NewRecorder(), httptest.NewRequest("GET", "https://x/status/sessions", nil))
